@@ -182,7 +182,7 @@ def run(ctx):
 
     def tf_perm():
         for nw in (4, 8, 16):
-            kt = ('obj', ('sym', 'K0'), (('size', T.C(64 * nw)),))
+            kt = T.mk_obj(('sym', 'K0'), {'size': T.C(64 * nw)})
             sm = ctx.summ(TF, 'Threefish.__init__', unroll=64,
                           call_hook=lambda pe, f, a, kw, env, node: (kt if f == ('g', 'Bits') and a and a[0] == A(1) else None))
             s = sm.env['self']
@@ -294,7 +294,7 @@ def run(ctx):
     def aes_mirror():
         INV = {'SubBytes': 'InvSubBytes', 'ShiftRows': 'InvShiftRows', 'MixColumns': 'InvMixColumns', 'AddRoundKey': 'AddRoundKey'}
         for nr in (10, 12, 14):
-            st = ('obj', SELF, (('Nb', T.C(4)), ('Nr', T.C(nr))))
+            st = T.mk_obj(SELF, {'Nb': T.C(4), 'Nr': T.C(nr)})
 
             def seq(qual):
                 sm = ctx.summ(AES, qual, self_term=st, unroll=64)
